@@ -235,4 +235,43 @@ example : (match fromBytes exR with
     | .ok d => d.types.resources.map (·.alias.map (·.source)) == [none, some 0, none]
     | _ => false) = true := by decide +kernel
 
+/-! ### used-type provenance: the global statement is FALSE for the model (and for the real code) -/
+
+/-- the validator's view of
+`(component (import "foo" (instance $foo (export "t" (type (sub resource)))))
+   (alias export $foo "t" (type $t)) (import "bar" (instance (export "u" (type (eq $t))))))`
+(as printed by the harness): the interface `bar` uses the resource of the interface imported under
+the *plain* name `foo` -/
+def exPlain : WTypes :=
+  { root := 0,
+    insts := [ [("t".toList, .type (.res 0) (.res 0))], [("u".toList, .type (.res 0) (.res 1))] ],
+    comps := [ { imports := [("foo".toList, .instance 0), ("bar".toList, .instance 1)], exports := [] } ],
+    res := [ { base := 0, peel := none }, { base := 0, peel := some 0 } ] }
+
+/-- **use_provenance (global, S3 `specUsesSound`) — counterexample.**  Full statement that fails:
+`∀ w d, fromBytes w = .ok d → specUsesSound d.types = none` ("every synthesised `uses` entry names
+another, *named* interface that exports the type").  On `exPlain` the converter records
+`uses[u] = (interface 0, t)` although interface 0 has no id (its import name has no `:`), so S3
+reports "source interface has no id".  The real `Package::from_bytes` produces the same arena
+(MODEL agrees) and `TypeEncoder::use_aliases` then panics `interface should have an id`
+(encoding.rs).  Replay (harness c08 case syntax):
+`CASE	r0	N	decode	wat	(component (import "foo" (instance $foo (export "t" (type (sub resource))))) (alias export $foo "t" (type $t)) (import "bar" (instance (export "u" (type (eq $t))))))` -/
+theorem use_provenance_counterexample :
+    ¬ (∀ (w : WTypes) (d : Decoded), fromBytes w = .ok d → specUsesSound d.types = none) := by
+  intro hall
+  have key : (match fromBytes exPlain with
+      | .ok d => (specUsesSound d.types).isSome
+      | _ => false) = true := by decide +kernel
+  split at key
+  · rename_i d hd
+    rw [hall exPlain d hd] at key
+    cases key
+  · cases key
+
+/-- the decoded arena of `exPlain`: the `uses` entry and the missing id -/
+example : (match fromBytes exPlain with
+    | .ok d => d.types.interfaces.map (fun i => (i.id, i.uses)) ==
+        [(none, []), (none, [("u".toList, { interface := 0, name := some "t".toList })]), (none, [])]
+    | _ => false) = true := by decide +kernel
+
 end Wac.Props.C08
